@@ -314,6 +314,11 @@ def run_c04(pid):
                         bb = list(b)
                         bb[p0 + 18 * pt + field:p0 + 18 * pt + field + width] = list(val.to_bytes(8, "big"))
                         damaged.append(("seektable-offsets", bb))
+                        # ... and the same under a STREAMINFO that declares no total (nothing then bounds a seek point's sample number)
+                        bu = list(bb)
+                        bu[8 + 13] &= 0xF0
+                        bu[8 + 14:8 + 18] = [0, 0, 0, 0]
+                        damaged.append(("seektable-offsets", bu))
     tail = next((it["bytes"][it["metaLen"]:] for it in items if it["class"] == "tiny-block-po" and it["bytes"]), [])
     mid = 3000000
     for cls, b in damaged:
